@@ -233,8 +233,8 @@ theorem frame_step_addTag (s : St) (st : Started) (name color defn : String) (f 
   have h1 : Frame s s1 := by
     unfold s1
     split
-    · exact frame_setTag _ _ _
-    · exact frame_setTag _ _ _
+    · exact Frame.trans (by frame_eq) (frame_setTag _ _ _)
+    · exact Frame.trans (by frame_eq) (frame_setTag _ _ _)
   clear_value s1
   have h2 : Frame s s2 := by
     unfold s2
